@@ -10,13 +10,13 @@ from . import c04
 PROP_ID = "C20"
 LEVEL = "exploration"
 NAMES = ["foo", "bar", "x", "a b", "name", "_priv", "é", "size2", "kids", "Target", "get", "e", "tar", "targets", "_target", "par", "parents", "child", "childre", "__meta__", "__rev__"]
-CLASS_LEVEL_NAMES = ["separator", "icon"]
+CLASS_LEVEL_NAMES = ["separator", "icon", "title"]
 assert not any(n in dir(NodeMixin) or n in ("parent", "children", "target") for n in NAMES)
 RULE = (
     "cases = histories over a growing universe: create a plain node (Node/AnyNode with keyword attributes, or a Node subclass whose attribute 'bar' is a property with a setter), create a link (SymlinkNode with "
     "constructor keyword attributes, or a SymlinkNodeMixin subclass that keeps `target` in the instance dictionary, in a slot, behind a read-only property or as a class-level attribute) to any existing node - plain node or link, same or other tree -, "
     "structural calls (parent/children assignment, children deletion) on links and targets, attribute writes through links and on targets, "
-    "for attribute names from a pool of 21 (none of them part of the node API; several are substrings or extensions of 'parent', 'children', 'target'). Assignments to two names that exist on the classes themselves ('separator', and 'icon', a class-level default of the user link classes) are judged on the write side only: stored on the target, nothing kept on the link. After every step the whole table node x name read through "
+    "for attribute names from a pool of 21 (none of them part of the node API; several are substrings or extensions of 'parent', 'children', 'target'). Assignments to two names that exist on the classes themselves ('separator'; 'icon', a class-level default of the user link classes; 'title', a settable property the user link classes inherit from an application base class) are judged on the write side only: stored on the target, nothing kept on the link. After every step the whole table node x name read through "
     "getattr is compared with an attribute-store model (value or AttributeError) and the whole forest with the structural model of C02. "
     "Systematic part: all short scripts create-link-chain x write x read. Non-trivial = history with a link to a link, or a write through a "
     "link followed by a structural call on that link or its target. Histories hashed for distinctness."
@@ -212,6 +212,7 @@ def random_cases(draw):
         st.tuples(st.just("set"), IDX, st.sampled_from(NAMES), VALUE).map(list),
         st.tuples(st.just("set_api"), IDX, st.just("separator"), st.sampled_from(["|", "::", "/"])).map(list),
         st.tuples(st.just("set_api"), IDX, st.just("icon"), VALUE).map(list),
+        st.tuples(st.just("set_api"), IDX, st.just("title"), VALUE).map(list),
         st.tuples(st.just("parent"), IDX, st.one_of(st.none(), IDX)).map(list),
         st.tuples(st.just("children"), IDX, st.lists(IDX, max_size=3)).map(list),
         st.tuples(st.just("del"), IDX).map(list),
